@@ -105,6 +105,6 @@ def run(ctx):
             extra.append({"seed": ctx.seed, "jitter": 0.0, "payloads": {"c1": {"flavour": f, "cleanup": 2, "shielded": 2 if f == "trio" else 0}, "c2": {"flavour": f, "cleanup": 1}, "h1": {"flavour": "threading"}, "x1p": {"flavour": f, "args": [1], "kwargs": {"k": 2}}},
                           "script": [{"op": "adopt", "p": "c1"}, {"op": "adopt", "p": "c2"}, {"op": "adopt", "p": "h1"}, {"op": "accept"}, {"op": "wait_running"}, {"op": "wait_start", "p": "c1"}, {"op": "wait_start", "p": "c2"}, {"op": "wait_start", "p": "h1"},
                                      {"op": "shutdown", "ctx": "thread", "wait": False}, {"op": "sleep", "ms": ms}, {"op": "execute", "p": "x1p", "ctx": "payload:h1", "how": "val:x"}, {"op": "wait_end"}], "shape": "targeted-execute-while-closing"})
-    scen.run_family(ctx, sh, names=NAMES, allow=(), extra_scenarios=extra, mc_invariants=["AtMostOnce", "FailStopSafe"], mc_properties=["ExecLive"], per_shape=12 if thorough else 5, depth=40, label="c10", script_hook=fix_script)
+    scen.run_family(ctx, sh, names=NAMES, allow=(), extra_scenarios=extra, mc_invariants=["AtMostOnce", "FailStopSafe"], mc_properties=["ExecLive"], per_shape=40 if thorough else 5, depth=40, label="c10", script_hook=fix_script)
     ctx.extra["rule"] = "shapes = executed flavour x calling context (outside thread, thread payload, coroutine payload of another flavour); per behaviour 2..3 execute calls with outcomes drawn from None / falsy and truthy values / Exception subclasses and with positional and keyword arguments, interleaved with steps of adopted bystanders of all flavours"
     ctx.assumptions = RT_ASSUMPTIONS + ["no two blocking executes wait on each other's loop thread (execute is documented as blocking; DESIGN 7.5)", "identity of the outcome is checked with `is` inside the harness and logged as a boolean"]
